@@ -59,11 +59,32 @@ func c01(r *Run) {
 	}
 	pop := NewPop(r)
 	var starting []dht.Addr
-	cfg.StartingNodes = func() ([]dht.Addr, error) { return starting, nil }
+	// the resolver of starting nodes is user code: it may take a while (a DNS lookup) and it may
+	// look at the server it resolves for
+	var sref *dht.Server
+	resolverLag := time.Duration(0)
+	if ch.Chance(1, 3, "resolver.slow") {
+		resolverLag = time.Duration(ch.Range(10, 3000, "resolver.ms")) * time.Millisecond
+	}
+	resolverReads := ch.Chance(1, 3, "resolver.reads")
+	cfg.StartingNodes = func() ([]dht.Addr, error) {
+		if resolverLag > 0 {
+			time.Sleep(resolverLag)
+		}
+		if resolverReads && sref != nil {
+			_ = sref.NumNodes()
+			_ = sref.Stats()
+		}
+		return starting, nil
+	}
 	cfg.QueryResendDelay = func() time.Duration { return 2 * time.Second }
 	s, conn := r.NewServer(cfg, local)
 	if s == nil {
 		return
+	}
+	sref = s
+	if resolverLag > 0 || resolverReads {
+		r.Probe("resolver-slow-or-reentrant")
 	}
 	sid := s.ID()
 	npeers := ch.Range(6, 40, "npeers")
